@@ -423,6 +423,8 @@ contains
   end subroutine
   subroutine helper()
   end subroutine
+  subroutine dot()
+  end subroutine
 end module gv_vec
 """,
         "gv_tok.f90": """module gv_tok
@@ -456,17 +458,41 @@ end module gv_tok
 contains
   subroutine {helper#H1!}()
   end subroutine
+  subroutine {dot#H2!}()
+  end subroutine
 end module gv_pub
+""",
+        "gv_units.f90": """module gv_units
+  implicit none
+  private :: operator(.approx.)
+  interface operator(.approx.)
+    module procedure close_to
+  end interface
+contains
+  logical function close_to(a, b)
+    real, intent(in) :: a, b
+    close_to = abs(a - b) < 1.0e-6
+  end function close_to
+  function {to_si#U1!}(x) result(y)
+    real, intent(in) :: x
+    real :: y
+    y = 0.3048 * x
+    if (y .approx. 0.0) y = 0.0
+  end function
+end module gv_units
 """,
         "gv_main.f90": """program gv_main
   use gv_vec
   use gv_tok
   use gv_pub
+  use gv_units
   implicit none
   type(vec) :: v
   print *, {norm#P1}(v)
   call {scale_by#P2}(v, 2.0)
   call {helper#H1}()
+  call {dot#H2}()
+  print *, {to_si#U1}(1.0)
 end program gv_main
 """,
     },
